@@ -94,7 +94,7 @@ Inductive climb :=
 | KCb.
 
 Inductive lact :=
-| LPush (bit bm : Z)                  (* Waker::drop: push the bit on the drop list *)
+| LPush (bit bm : Z) (who : hkind)    (* Waker::drop: push the bit on the drop list ([who]: ghost, the dropped waker) *)
 | LTake                               (* process_waker_drops: take the drop list *)
 | LChInit (c : Z) | LChSend (c m : Z) | LChClosed (c : Z) | LChClose (c : Z) | LChHandler (c : Z) (del : bool)
 | LPqHandler (p : Z) (del : bool) | LPqSend (p m : Z) | LPqCancelSet (p : Z)
@@ -549,7 +549,7 @@ Definition exec_climb (st : wstate) (t : tid) (k : climb) (r : list instr) : wst
 (** ** Lock actions: what the thread does right after acquiring [m], and what follows *)
 Definition exec_lact (st : wstate) (t : tid) (a : lact) (r : list instr) : wstate * list wevent :=
   match a with
-  | LPush bit bm =>
+  | LPush bit bm _ =>
       let st1 := set_dl st (dl st ++ [bit]) in
       (match climb_reserved st bm with
        | Some i => (set_cont st1 t (i :: IUnlock MDL UNone :: r), [])
@@ -560,7 +560,7 @@ Definition exec_lact (st : wstate) (t : tid) (a : lact) (r : list instr) : wstat
       (set_cont (set_dl st1 []) t (IUnlock MDL (UDels (dl st)) :: r), ev)
   | LChInit c =>
       let x := chs st c in
-      (set_cont (set_chan st c (mkChan (cexists x) (creg x) (cguard x) true (cq x) (cw x))) t
+      (set_cont (set_chan st c (mkChan (cexists x) (creg x) (cguard x) (cexists x) (cq x) (cw x))) t
                 (IUnlock (MCh c) (UChReg c) :: r), [])
   | LChSend c m =>
       let x := chs st c in
@@ -579,7 +579,7 @@ Definition exec_lact (st : wstate) (t : tid) (a : lact) (r : list instr) : wstat
       let x := chs st c in
       if copen x then
         (set_cont (set_chan st c (mkChan (cexists x) (creg x) (cguard x) false (cq x) (cw x))) t
-                  (ILock MDL (LPush (wbit (cw x)) (wbm (cw x))) :: IUnlock (MCh c) (UChClear c) :: r), [])
+                  (ILock MDL (LPush (wbit (cw x)) (wbm (cw x)) (HChan c)) :: IUnlock (MCh c) (UChClear c) :: r), [])
       else (set_cont st t (IUnlock (MCh c) (UChClear c) :: r), [])
   | LChHandler c del =>
       let x := chs st c in
@@ -682,7 +682,7 @@ Definition begin_cmd (st : wstate) (t : tid) (c : cmd) : wstate * list wevent * 
       | Some wi =>
         let st1 := set_wreg st (updZ (wreg st) w None) in
         match wbusy st w with
-        | O => (set_cont st1 t [ILock MDL (LPush (wbit wi) (wbm wi))], [], None)
+        | O => (set_cont st1 t [ILock MDL (LPush (wbit wi) (wbm wi) (HPlain w))], [], None)
         | S _ => (st1, [], Some RShared)
         end
       | None => bad
@@ -736,7 +736,7 @@ Definition begin_cmd (st : wstate) (t : tid) (c : cmd) : wstate * list wevent * 
       else match wh_add st (HPipe p) with
            | Some (st1, wi) =>
              let st2 := set_pipe st1 p (mkPipe true true false false [] [] wi) in
-             (spawn_thread st2 t p [ILock MDL (LPush (wbit wi) (wbm wi))], [EAdd (wbit wi) (HPipe p)], Some RUnit)
+             (spawn_thread st2 t p [ILock MDL (LPush (wbit wi) (wbm wi) (HPipe p))], [EAdd (wbit wi) (HPipe p)], Some RUnit)
            | None => (st, [EErr], Some RBad)
            end
   | CPSend p m =>
